@@ -377,6 +377,7 @@ impl RingView {
         }
         Some(RingView { base: rings[0].0 as *const u8, p })
     }
+    #[allow(dead_code)]
     pub fn base(&self) -> *mut u8 {
         self.base as *mut u8
     }
